@@ -54,7 +54,7 @@ class Scen:
         return [k[2] for k, _ in sorted(im.items(), key=lambda kv: kv[1])]
 
     def text(self):
-        t = ["site %s %d %d" % s for s in self.sites] + self.lines + ["symm " + self.mode]
+        t = ["site %s %d %d" % s for s in self.sites] + self.lines + (["order_spins 1"] if self.tags.get("order_spins") else []) + ["symm " + self.mode]
         if self.mode == "custom":
             for q in self.ioms:
                 t.append("iom %d " % len(q) + " ".join("%s %d %s" % (fs(c), len(m), " ".join("%d %d" % (d, i) for (d, i) in m)) for (c, m) in q))
@@ -275,14 +275,43 @@ def gen_symmetric_hop(rng):
     return sc
 
 
+def h_itself(ea, eb, t, spins=1, extra=()):
+    """two sites with different levels and hopping; candidate: the Hamiltonian itself -- commutes with H, is not diagonal, and its
+    diagonal part (the level term) is not conserved: must be rejected by the n_i half of checkSymmetry"""
+    sc = Scen([("A", 1, spins), ("B", 1, spins)], ["addLevel A %s" % fs(ea), "addLevel B %s" % fs(eb)])
+    im = sc.index_map()
+    q = []
+    for sp in range(spins):
+        sc.lines += herm_pair(t, [(1, "A", 0, sp), (0, "B", 0, sp)])
+        a, b = im[("A", 0, sp)], im[("B", 0, sp)]
+        q += [(Fraction(ea), [(1, a), (0, a)]), (Fraction(eb), [(1, b), (0, b)]), (Fraction(t), [(1, a), (0, b)]), (Fraction(t), [(1, b), (0, a)])]
+    sc.mode = "custom"
+    cs = [("H-itself", q)] + list(extra)
+    sc.ioms = [c[1] for c in cs]
+    sc.tags["cand_kinds"] = [c[0] for c in cs]
+    return sc
+
+
+def gen_h_itself(rng):
+    ea, eb = rng.sample(DY, 2)
+    spins = rng.choice([1, 2])
+    extra = [("N", [n_op(i) for i in range(2 * spins)])] if rng.random() < 0.5 else []
+    return h_itself(ea, eb, rng.choice(DY), spins, extra)
+
+
 def gen_scenario(rng):
-    if rng.random() < 0.08:
+    x = rng.random()
+    if x < 0.06:
         return gen_symmetric_hop(rng)
+    if x < 0.12:
+        return gen_h_itself(rng)
     sites = gen_lattice(rng)
     sc = Scen(sites, [])
     want = rng.choice([{"N", "Sz"}, {"N", "Sz"}, {"N"}, {"Sz"}, set()])
     sc.lines = gen_hamiltonian(rng, sc, want)
     r = rng.random()
+    if r < 0.5 and rng.random() < 0.3:
+        sc.tags["order_spins"] = 1       # spin-major index order (default / ignore only: custom candidates are written for site-major order)
     if r < 0.4:
         sc.mode = "default"
     elif r < 0.5:
@@ -317,6 +346,30 @@ def probe_shift():
 def probe_shift_hubbard():
     return Scen([("A", 1, 2)], ["addCoulombS A 2 -1"], "custom", [[(Fraction(1), [(1, 0), (0, 0), (1, 1), (0, 1)])]],
                 tags={"probe": "hubbard-n0n1", "cand_kinds": ["product"]})
+
+
+def fixed_scenarios():
+    """tiny deterministic scenarios, run before the random ones: a failure is keyed by the first of these that shows it"""
+    hop = herm_pair(Fraction(1), [(1, "A", 0, 0), (0, "B", 0, 0)])
+    N2 = [n_op(0), n_op(1)]
+    return [
+        Scen([("A", 1, 2)], [], "default", tags={"fixed": 1}),
+        Scen([("A", 1, 2)], ["addCoulombS A 2 -1"], "default", tags={"fixed": 2}),
+        Scen([("A", 1, 2), ("B", 1, 2)], ["addHopping4 A B 1"], "default", tags={"fixed": 3}),
+        Scen([("A", 1, 2), ("B", 1, 2)], ["addCoulombS A 2 -1", "addLevel B 0.5", "addHopping4 A B 0.5"], "default", tags={"fixed": 4}),
+        Scen([("A", 1, 1), ("B", 1, 1)], hop, "custom", [N2], tags={"fixed": 5, "cand_kinds": ["N"]}),
+        Scen([("A", 1, 1), ("B", 1, 1)], hop + ["addLevel A 0.5", "addLevel B 0.5"], "custom",
+             [[(Fraction(1), [(1, 0), (0, 1)]), (Fraction(1), [(1, 1), (0, 0)])]], tags={"fixed": 6, "cand_kinds": ["hop-symmetry"]}),
+        Scen([("A", 1, 1), ("B", 1, 1)], hop + ["addLevel A 0.5", "addLevel B 0.5"], "custom",
+             [[(Fraction(1), [(1, 0), (0, 1)]), (Fraction(1), [(1, 1), (0, 0)])], N2], tags={"fixed": 7, "cand_kinds": ["hop-symmetry", "N"]}),
+        Scen([("A", 1, 2)], [], "custom", [[n_op(0)], [n_op(1)]], tags={"fixed": 8, "cand_kinds": ["single-n", "single-n"]}),
+        Scen([("A", 1, 2), ("B", 1, 2)], ["addHopping4 A B 1"], "ignore", tags={"fixed": 9}),
+        Scen([("A", 1, 3)], ["addLevel A 0.5"], "default", tags={"fixed": 10}),
+        Scen([("A", 2, 2)], ["addCoulombP3 A 2 0.5 -1"], "default", tags={"fixed": 11}),
+        Scen([("A", 1, 2), ("B", 1, 2)], ["addHopping4 A B 1", "addHopping8 A B 0.5 0 0 0 1"], "default", tags={"fixed": 12}),
+        Scen([("A", 1, 2)], ["addCoulombS A 1 -0.5"] + herm_pair(Fraction(1, 4), [(1, "A", 0, 0), (1, "A", 0, 1)]), "default", tags={"fixed": 13}),
+        h_itself(Fraction(1, 2), Fraction(-1, 2), Fraction(1)),
+    ]
 
 
 # ---------------------------------------------------------------------------------------------------------
@@ -706,7 +759,7 @@ def run(chk):
                     "right polynomial for the lattice is property C04"]
     chk.assume += ["boost::hash of the quantum-number vector is injective on the tuples that occur (checked per run: HASH record and re-derived from the STATE records)",
                    "amplitudes and candidate coefficients are small dyadic rationals: the doubles are exact, the C++ threshold tests coincide with exact zero tests",
-                   "real build; order_spins = false (spin-major order on heterogeneous lattices is the C18 finding)"]
+                   "real build; custom candidates are generated for the site-major index order (default / ignored analysis also in spin-major order)"]
     setup()
     h = pv.build_harness("h_c07")
     drv = pv.build_driver("driver_c07", ["C07_model"])
@@ -714,8 +767,10 @@ def run(chk):
     chk.extra["code_variant"] = {"fixed_sz": fixed_sz, "shiftfix": shiftfix}
 
     probes = [probe_sz(), probe_sz2(), probe_mixed(), probe_shift(), probe_shift_hubbard()]
-    scens = list(probes)
-    ncases = 400 if quick else 3000
+    fixed = fixed_scenarios()
+    scens = list(probes) + fixed
+    nfix = len(scens)
+    ncases = 1200 if quick else 6000
     for _ in range(ncases):
         scens.append(gen_scenario(chk.rng))
     recs, rc, err = run_impl(h, scens)
@@ -731,7 +786,8 @@ def run(chk):
             return bool(r) and "error" not in r and any(k == kind for (k, _) in property_failures(r))
         return f
 
-    canonical = {}    # kind -> canonical key, when the canonical witness itself fails on this tree
+    canonical = {}    # kind -> canonical key, when a canonical witness of a refuted theorem itself fails on this tree
+    failures = {}     # kind -> [(index, scenario, detail)] not attributed to a canonical witness
     tie_fail = None
     for k, sc in enumerate(scens):
         r = recs[str(k)]
@@ -740,7 +796,7 @@ def run(chk):
             continue
         accepted = [c[2] for c in r["cands"]]
         kinds = sc.tags.get("cand_kinds") or ([c[1] for c in r["cands"]] + r["candthrow"] if sc.mode == "default" else [])
-        sig = "%s | H conserves %s | %s" % (shape_class(sc.sites), conservation(r), sc.mode)
+        sig = "%s | H conserves %s | %s%s" % (shape_class(sc.sites), conservation(r), sc.mode, " spin-major" if sc.tags.get("order_spins") else "")
         if sc.mode == "custom":
             sig += " " + ",".join("%s:%s" % (kd, "acc" if a else "rej") for kd, a in zip(kinds, accepted))
         elif sc.mode == "default":
@@ -748,8 +804,8 @@ def run(chk):
         pf = property_failures(r)
         nontrivial = r.get("nblocks", 0) > 1 or sc.mode == "ignore" or bool(pf)
         chk.case(sc.canon(), sig[:160], nontrivial,
-                 {"scenario": sc.canon(), "blocks": r.get("nblocks"), "accepted": accepted} if k >= len(probes) and len(chk.samples) < 6 else None)
-        hc = None if (r["symm"] and r["symm"][0] == "throws") or r.get("died") else hash_check(r)
+                 {"scenario": sc.canon(), "blocks": r.get("nblocks"), "accepted": accepted} if k >= nfix and len(chk.samples) < 6 else None)
+        hc = None if (r["symm"] and r["symm"][0] == "throws") or r.get("died") or pf else hash_check(r)
         if hc:
             chk.tie_broken("hash-injectivity", "%s: %s" % (sc.canon(), hc))
         # --- model vs implementation
@@ -761,28 +817,39 @@ def run(chk):
             if diff and (tie_fail is None or len(sc.canon()) < len(tie_fail[0].canon())):
                 tie_fail = (sc, diff)
         # --- the property itself
-        for (kind, detail) in pf:
+        for (kind, detail) in pf[:1]:
             if k < len(probes):
                 key = "%s: %s" % (kind, sc.canon())
                 canonical.setdefault(kind, key)
                 chk.violation(canonical[kind], detail + " (canonical witness of the refuted theorem, variant fixed_sz=%d shiftfix=%d)" % (fixed_sz, shiftfix),
                               {"harness": "h_c07", "scenario": sc.text(), "kind": kind, "detail": detail})
-                break
+                continue
             known_cause = False
-            if kind == "analysis-throws" and kind in canonical:
+            if kind == "analysis-throws" and kind in canonical and not r["throws"]:
                 ups = sum(1 for s in r["spins"] if s == 1)
                 known_cause = sc.mode == "default" and all(s in (0, 1) for s in r["spins"]) and 2 * ups != r["N"]
             if kind in ("multi-target", "bimap") and ("multi-target" in canonical):
                 # cause: an accepted candidate that does not shift uniformly
-                known_cause = sc.mode == "custom" and any(a and not uniform_shift(p, r["N"]) for (_, _, a, p) in r["cands"])
-                kind = "multi-target"
+                if sc.mode == "custom" and any(a and not uniform_shift(p, r["N"]) for (_, _, a, p) in r["cands"]):
+                    known_cause, kind = True, "multi-target"
             if known_cause:
                 chk.violation(canonical[kind], detail, {"harness": "h_c07", "scenario": sc.text()})
             else:
-                small = shrink(sc, fails_kind(kind))
-                chk.violation("%s: %s" % (kind, small.canon()), detail, {"harness": "h_c07", "scenario": small.text(), "kind": kind, "detail": detail,
-                                                                          "original": sc.text()})
-            break
+                failures.setdefault(kind, []).append((k, sc, detail))
+    # one violation per kind: the first fixed scenario that shows it, else the smallest random one, shrunk
+    for kind, lst in sorted(failures.items()):
+        fx = [x for x in lst if x[0] < nfix]
+        if fx:
+            k, sc, detail = fx[0]
+            small = sc
+        else:
+            k, sc, detail = min(lst, key=lambda x: (len(x[1].canon()), x[1].canon()))
+            small = shrink(sc, fails_kind(kind))
+            rr, _, _ = run_impl(h, [small])
+            d2 = [d for (kd, d) in property_failures(rr.get("0", {"symm": None, "throws": ["?"]})) if kd == kind] if rr.get("0") else []
+            detail = d2[0] if d2 else detail
+        chk.violation("%s: %s" % (kind, small.canon()), "%s (%d of %d cases fail this way)" % (detail, len(lst), len(scens)),
+                      {"harness": "h_c07", "scenario": small.text(), "kind": kind, "detail": detail, "original": sc.text()})
     if tie_fail:
         sc, diff = tie_fail
         chk.tie_broken("model-vs-implementation", "variant fixed_sz=%d shiftfix=%d; %s: %s" % (fixed_sz, shiftfix, sc.canon(), "; ".join(diff)[:600]))
